@@ -11,7 +11,7 @@ from vlib.nlp import NLP, close, time_like_vars, random_points, DMa
 
 ID = "C05"
 LEVEL = "exploration"
-BUDGET = {"quick": (8, 70), "thorough": (16, 1000)}
+BUDGET = {"quick": (8, 70), "thorough": (16, 2000)}
 K = 3
 RULE = ("Generated OCP (all sampling methods, N 1..4, M 1..3, degree 1..5, radau/legendre, every grid class, fixed/free/parametric horizon) with 1-4 objective terms "
         "built from at_t0, at_tf, sum, sum(include_last), integral(grid='control') and integral over nonlinear integrands in states, controls, algebraic values, time, "
